@@ -208,8 +208,13 @@ func (e Float32Engine) Add(a Tensor, b Tensor, opts ...FuncOpt) (retVal Tensor, 
 		vecf32.IncrAdd(dataA, dataB, dataReuse)
 		retVal = reuse
 	case toReuse:
-		copy(dataReuse, dataA)
-		vecf32.Add(dataReuse, dataB)
+		if reuse == b {
+			// the destination is the second operand: add the first one into it (copying a over it first would lose b)
+			vecf32.Add(dataReuse, dataA)
+		} else {
+			copy(dataReuse, dataA)
+			vecf32.Add(dataReuse, dataB)
+		}
 		retVal = reuse
 	case !safe:
 		vecf32.Add(dataA, dataB)
